@@ -248,7 +248,14 @@ def cli_cases(draw):
     # value columns given on the command line: several --field options in any order, each with its own aggregate
     fields = draw(st.sampled_from([None, None, ["count"], ["x:agg=max", "count"], ["count", "x:agg=min"], ["x:agg=max"],
                                    ["x:agg=max", "count:agg=sum"], ["count:agg=max", "x"]]))
-    return {"part": "cli", "b": b, "nbins": nb, "kind": kind, "spec": spec, "exact": exact and kind != "4dn", "fields": fields,
+    # COOL_PATH is a COARSER cooler (m x the base bin size) and the fine base comes in through --base-uri; progressions
+    # given with an explicit start then begin below COOL_PATH's own resolution
+    base_m = draw(st.sampled_from([None, None, None, 2, 5])) if kind in ("list", "kN", "kB", "4dn", "mixed", "n", "b") else None
+    if base_m and kind in ("kN", "kB", "mixed"):
+        spec = spec.replace(str(k), str(b), 1) if kind != "mixed" else f"{b * 3},{b}{spec[-1]}"
+    if base_m:
+        fields = None
+    return {"part": "cli", "b": b, "nbins": nb, "kind": kind, "spec": spec, "exact": exact and kind != "4dn", "fields": fields, "base_m": base_m,
             "px": draw(st.lists(st.tuples(st.integers(0, 499), st.integers(0, 499), st.integers(1, 9)), min_size=1, max_size=12,
                                 unique_by=lambda t: (min(t[0], t[1]), max(t[0], t[1]))))}
 
@@ -321,13 +328,21 @@ def check_cli(case, ctx: Ctx):
             call("create base", create_from_model, base, bt, rows, True, h5opts={"compression": None})
         out = os.path.join(work, "z.mcool")
         args = ["zoomify", base, "-o", out, "-c", "100000"]
+        cur = b
+        if case.get("base_m"):
+            m_ = case["base_m"]
+            coarse = os.path.join(work, "coarse.cool")
+            call("create the coarser COOL_PATH", create_from_model, coarse, model.coarsen_bins(bt, m_),
+                 model.coarsen_rows(bt, rows, m_, True, ("sum",)), True, h5opts={"compression": None})
+            args = ["zoomify", coarse, "--base-uri", base, "-o", out, "-c", "100000"]
+            cur = b * m_
         for f in fields or []:
             args += ["--field", f]
         if case["spec"] is not None:
             args += ["-r", case["spec"]]
         genome = sum(e[-1] for e in bt["edges"])
         maxres = int(math.ceil(genome / 256))
-        want = sorted(set(_expand(case["spec"], b, maxres)) | {b})
+        want = sorted(set(_expand(case["spec"], cur, maxres)) | {b, cur})
         derivable = all(r % b == 0 for r in want)
         rc, outtxt, exc = run_cli(args)
         if not derivable:
@@ -351,7 +366,7 @@ def check_cli(case, ctx: Ctx):
             check(model.read_bins(clr) == model.bins_rows(model.coarsen_bins(bt, k) if k > 1 else bt), f"level {r} bin table differs")
     finally:
         ctx.clean(work)
-    ctx.record(case, len(want) >= 3, ["cli", "cli-" + case["kind"], f"cli-levels={min(len(want), 6)}", "cli-fields=" + ",".join(fields or ["default"]),
+    ctx.record(case, len(want) >= 3, ["cli", "cli-" + case["kind"], f"cli-levels={min(len(want), 6)}", "cli-fields=" + ",".join(fields or ["default"]), "cli-finer-base-uri" if case.get("base_m") else "cli-one-base",
                                       "cli-maxres-is-member" if maxres in want else "cli-maxres-between"])
 
 
